@@ -575,3 +575,78 @@ Lemma cm_compute_total nm m : is_err (cm_compute nm m) = false.
 Proof. destruct nm; reflexivity. Qed.
 Lemma rec_gamma_total_partial c s : fst c <> Weighted -> is_err (rec_gamma c s) = false.
 Proof. destruct c as [[| | |] nc]; intros H; try reflexivity. exfalso. apply H. reflexivity. Qed.
+
+(* ------------------------------------------------------------------------------------------ *)
+(* Binary forms (threshold, then count the positive class)                                     *)
+(* ------------------------------------------------------------------------------------------ *)
+Definition ok01 (ps : list (Z * Z)) : Prop :=
+  forall py, In py ps -> (fst py = 0 \/ fst py = 1) /\ (snd py = 0 \/ snd py = 1).
+Lemma bin_ok01 t b : bin_valid b = true -> ok01 (bin_pairs_spec t b).
+Proof.
+  unfold bin_valid, ok01, bin_pairs_spec. intros H [p y] Hin. apply andb_prop in H as [_ H].
+  pose proof (in_combine_l _ _ _ _ Hin) as Hp. pose proof (in_combine_r _ _ _ _ Hin) as Hy.
+  apply in_map_iff in Hp as [s [Hs _]]. rewrite forallb_forall in H. specialize (H y Hy). unfold is01 in H.
+  cbn [fst snd]. split.
+  - subst p. destruct (t <=? s); cbn; auto.
+  - apply orb_prop in H as [H|H]; apply Z.eqb_eq in H; auto.
+Qed.
+Lemma bin_len t b : bin_valid b = true -> lenZ (bin_pairs_spec t b) = lenZ (snd b).
+Proof.
+  unfold bin_valid, bin_pairs_spec, lenZ. intros H. apply andb_prop in H as [H _]. apply Nat.eqb_eq in H.
+  rewrite combine_length, map_length, H, Nat.min_id. reflexivity.
+Qed.
+Lemma sumZ_cnt_in {X} (f : X -> Z) (P : X -> bool) l : (forall x, In x l -> f x = b2z (P x)) -> sumZ (map f l) = cnt P l.
+Proof.
+  induction l as [|x l IH]; intros H; [reflexivity|]. cbn [map]. rewrite sumZ_cons, cnt_cons, IH, H; [reflexivity|left; reflexivity|].
+  intros y Hy. apply H. right. exact Hy.
+Qed.
+Lemma cnt_ext_in {X} (P Q : X -> bool) l : (forall x, In x l -> P x = Q x) -> cnt P l = cnt Q l.
+Proof.
+  induction l as [|x l IH]; intros H; [reflexivity|]. rewrite !cnt_cons, IH, H; [reflexivity|left; reflexivity|].
+  intros y Hy. apply H. right. exact Hy.
+Qed.
+Ltac case01 H py := let Hp := fresh in let Hy := fresh in
+  destruct (H py) as [Hp Hy]; [assumption|]; destruct py as [p y]; cbn [fst snd] in *; destruct Hp, Hy; subst; reflexivity.
+Lemma sum_py_tp ps : ok01 ps -> sumZ (map (fun py => fst py * snd py) ps) = tp 1 ps.
+Proof. intros H. apply sumZ_cnt_in. intros py Hin. case01 H py. Qed.
+Lemma sum_land_tp ps : ok01 ps -> sumZ (map (fun py => Z.land (fst py) (snd py)) ps) = tp 1 ps.
+Proof. intros H. apply sumZ_cnt_in. intros py Hin. case01 H py. Qed.
+Lemma sum_p ps : ok01 ps -> sumZ (map fst ps) = tp 1 ps + fp 1 ps.
+Proof. intros H. rewrite <- cnt_pred. apply sumZ_cnt_in. intros py Hin. case01 H py. Qed.
+Lemma sum_y ps : ok01 ps -> sumZ (map snd ps) = tp 1 ps + fn 1 ps.
+Proof. intros H. rewrite <- cnt_label. apply sumZ_cnt_in. intros py Hin. case01 H py. Qed.
+Lemma correct_tp_tn ps : ok01 ps -> cnt (fun py => fst py =? snd py) ps = tp 1 ps + tn 1 ps.
+Proof.
+  intros H. rewrite (cnt_split _ (fun py => fst py =? 1)). unfold tp, tn. f_equal; apply cnt_ext_in; intros py Hin; case01 H py.
+Qed.
+
+Theorem binacc_algo_eq_spec t b : bin_valid b = true -> fn_of binacc_spec t b = binacc_textbook t b.
+Proof.
+  intros Hv. unfold fn_of, binacc_textbook. cbn [agamma abeta binacc_spec]. unfold binacc_beta, acc_gamma_avg.
+  rewrite bin_pairs_eq. set (ps := bin_pairs_spec t b). cbn [fsc nget narr nth nsc zsc]. f_equal.
+  rewrite sumZ_b2z, <- (bin_len t b Hv), (correct_tp_tn ps (bin_ok01 t b Hv)). fold ps. apply qdivx_z.
+  intros H0. rewrite <- (correct_tp_tn ps (bin_ok01 t b Hv)).
+  pose proof (cnt_le_len (fun py : Z * Z => fst py =? snd py) ps). pose proof (cnt_nonneg (fun py : Z * Z => fst py =? snd py) ps). lia.
+Qed.
+Theorem binprec_algo_eq_spec t b : bin_valid b = true -> fn_of binprec_spec t b = binprec_textbook t b.
+Proof.
+  intros Hv. unfold fn_of, binprec_textbook. cbn [agamma abeta binprec_spec]. unfold binprec_beta, prec_gamma. cbn [fst].
+  rewrite bin_pairs_eq. set (ps := bin_pairs_spec t b). pose proof (bin_ok01 t b Hv) as H01. fold ps in H01.
+  cbn [fsc nget narr nth nsc zsc]. f_equal. rewrite (sum_py_tp ps H01), (sum_p ps H01).
+  replace (tp 1 ps + fp 1 ps - tp 1 ps) with (fp 1 ps) by lia. apply prec1_z; [apply tp_nonneg|apply fp_nonneg].
+Qed.
+Theorem binrec_algo_eq_spec t b : bin_valid b = true -> fn_of binrec_spec t b = binrec_textbook t b.
+Proof.
+  intros Hv. unfold fn_of, binrec_textbook. cbn [agamma abeta binrec_spec]. unfold binrec_beta, binrec_gamma.
+  rewrite bin_pairs_eq. set (ps := bin_pairs_spec t b). pose proof (bin_ok01 t b Hv) as H01. fold ps in H01.
+  cbn [fsc nget narr nth nsc zsc]. f_equal. rewrite (sum_land_tp ps H01), (sum_y ps H01).
+  apply rec1_z. pose proof (tp_nonneg 1 ps). pose proof (fn_nonneg 1 ps). lia.
+Qed.
+Theorem binf1_algo_eq_spec t b : bin_valid b = true -> fn_of binf1_spec t b = binf1_textbook t b.
+Proof.
+  intros Hv. unfold fn_of, binf1_textbook. cbn [agamma abeta binf1_spec]. unfold binf1_beta, f1_gamma. cbn [fst].
+  rewrite bin_pairs_eq. set (ps := bin_pairs_spec t b). pose proof (bin_ok01 t b Hv) as H01. fold ps in H01.
+  cbn [fsc nget narr nth nsc zsc]. f_equal. rewrite (sum_py_tp ps H01), (sum_p ps H01), (sum_y ps H01).
+  pose proof (tp_nonneg 1 ps). pose proof (fp_nonneg 1 ps). pose proof (fn_nonneg 1 ps).
+  rewrite f1c_z by lia. unfold f1_c. f_equal. lia.
+Qed.
